@@ -10,7 +10,7 @@ EXTENDS GESteps
 
 CONSTANTS Split, Sizes, Weights, Gens
 
-LeafKinds == {"elitism", "novelty", "tournament", "mutation", "crossover", "identity"}
+LeafKinds == {"elitism", "novelty", "tournament", "mutation", "crossover", "identity", "evaluate"}
 Leaves == {Leaf(k) : k \in LeafKinds}
 Tuples2(S) == {<<a, b>> : a \in S, b \in S}
 Tuples3(S) == {<<a, b, c>> : a \in S, b \in S, c \in S}
